@@ -130,6 +130,9 @@ struct Writer {
 
     /// The number of bytes that have been written to the currently active file.
     written_bytes: u64,
+
+    /// The ID of the output file that a failed merge left behind without forcing it to disk.
+    unsynced_merge_fileid: Option<u64>,
 }
 
 /// The reader reads log entries from data files given the locations found in KeyDir. Since data files
@@ -184,6 +187,7 @@ impl Bitcask {
             ))?)?,
             active_fileid,
             written_bytes: 0,
+            unsynced_merge_fileid: None,
         }));
 
         let handle = Handle {
@@ -539,6 +543,9 @@ impl Writer {
             // counted, the file must still be known to later merges
             if utils::datafile_name(&self.ctx.conf.path, merge_fileid).exists() {
                 self.ctx.stats.entry(merge_fileid).or_default();
+                // Entries may already point into that output although it was never forced to
+                // disk, a later merge must do so before it removes the files they came from
+                self.unsynced_merge_fileid = Some(merge_fileid);
             }
             self.new_active_datafile(merge_fileid + 1)?;
         }
@@ -550,6 +557,17 @@ impl Writer {
         let min_merge_fileid = self.active_fileid + 1;
         let mut merge_fileid = min_merge_fileid;
         debug!(merge_fileid, "new merge file");
+
+        // The output that a failed merge left behind may hold the only copy of entries whose
+        // original files are about to be removed
+        if let Some(fileid) = self.unsynced_merge_fileid {
+            match fs::File::open(utils::datafile_name(path, fileid)) {
+                Ok(file) => file.sync_all()?,
+                Err(e) if e.kind() == io::ErrorKind::NotFound => {}
+                Err(e) => return Err(e.into()),
+            }
+            self.unsynced_merge_fileid = None;
+        }
 
         // Get the set of file ids to be merged
         let fileids_to_merge = self.ctx.fileids_to_merge(path)?;
